@@ -390,6 +390,24 @@ Non-trivial: payload ≥ 12 bytes; distinct = distinct query lines."
                 }
                 if nb >= 2 { let mut x = vs.clone(); x.blocks.swap(0, nb - 1); variants.push(("blocks-swapped".into(), x)); }
                 { let mut x = vs.clone(); x.blocks.truncate(1); variants.push(("blocks-truncated".into(), x)); }
+                // file_size is data too: it may disagree with the block list in any way (seed C20-L indexed the block list with it)
+                let mut fs_variants: Vec<(String, Signature)> = Vec::new();
+                for k in [1024u64, 2048, 3072, 1 << 32, 1 << 40, (1 << 62) - 3000] {
+                    let mut x = vs.clone(); x.file_size = vs.file_size + k; fs_variants.push((format!("file_size+{k}"), x));
+                }
+                for k in [1u64, 952, 1024, 2999] { let mut x = vs.clone(); x.file_size = vs.file_size - k; fs_variants.push((format!("file_size-{k}"), x)); }
+                std::fs::write(f("src"), &basis).ok();      // a source of exactly the basis's length and content
+                for (name, sv) in &fs_variants {
+                    let (svc, srcc) = (sv.clone(), basis.clone());
+                    let r = guarded(move || { use copia::Sync; copia::CopiaSync::with_block_size(1024).delta(Cursor::new(&srcc), &svc).map(|d| d.ops.len()) });
+                    if r.is_err() { w.fail(0, "delta-panic-on-decoded-signature", &format!("CopiaSync::delta panicked on a decoded signature with {name} (source = the basis)")); }
+                    let bytes = bincode::serialize(sv).expect("ser");
+                    std::fs::write(f("sig"), &bytes).ok();
+                    let (code, err) = c.run(&["delta", &f("src"), &f("sig"), "-o", &f("delta")]);
+                    w.count("cli-delta-inconsistent-file-size");
+                    if code.is_none() { w.fail(0, "cli-delta-signal", &format!("copia delta died by signal on signature file variant {name} (source = the basis): {}", err.lines().next().unwrap_or(""))); }
+                    if code == Some(-999) { w.fail(0, "cli-delta-hang", &format!("copia delta did not terminate within 30 s on signature file variant {name}")); }
+                }
                 std::fs::write(f("src"), &src).ok();
                 for (name, sv) in &variants {
                     // the same hostile signature through the library's table + scan, in process
